@@ -47,29 +47,29 @@ theorem tables_of_ok (c : Cfg) (h : tablesOK c = true) : Tables c := by
   rcases t with _ | ⟨e, _ | ⟨l, _ | ⟨x, r⟩⟩⟩ <;> simp at this
   exact ⟨l, by rw [this.1], this.2⟩
 
-theorem cstr_single {b : Byte} (hb : b ≠ 0) : cstr [b] = [b] := by
+theorem cstr_single {b : Nat} (hb : b ≠ 0) : cstr [b] = [b] := by
   simp [cstr, List.takeWhile, hb]
 
 /-! ## the reader undoes the writer -/
 
-theorem lookLoop_cls (c : LookCfg) (r : List Byte) (pos : Nat) (acc : List Byte) :
+theorem lookLoop_cls (c : LookCfg) (r : List Nat) (pos : Nat) (acc : List Nat) :
     lookLoop c (c.cls :: r) pos acc = (acc, .ok (r, pos + 1)) := by
   cases r <;> simp [lookLoop]
 
-theorem lookLoop_plain (c : LookCfg) (b : Byte) (r : List Byte) (pos : Nat) (acc : List Byte)
+theorem lookLoop_plain (c : LookCfg) (b : Nat) (r : List Nat) (pos : Nat) (acc : List Nat)
     (h1 : b ≠ c.cls) (h2 : b ≠ c.escb) :
     lookLoop c (b :: r) pos acc = lookLoop c r (pos + 1) (acc ++ cstr [b]) := by
   cases r <;> simp [lookLoop, h1, h2]
 
-theorem lookLoop_esc (c : LookCfg) (l : Byte) (t : List Byte) (r : List Byte) (pos : Nat) (acc : List Byte)
+theorem lookLoop_esc (c : LookCfg) (l : Nat) (t : List Nat) (r : List Nat) (pos : Nat) (acc : List Nat)
     (h : c.escb ≠ c.cls) (hl : c.esc.lookup l = some t) :
     lookLoop c (c.escb :: l :: r) pos acc =
       if c.continues then lookLoop c r (pos + 2) (acc ++ cstr t) else lookLoop c r (pos + 2) (acc ++ cstr t ++ cstr [l]) := by
   simp [lookLoop, h, hl]
 
 /-- the loop of `String_Look` on the body `String_Show` wrote for `s`, followed by the closing delimiter and anything at all -/
-theorem lookLoop_show (c : Cfg) (T : Tables c) (hc : c.look.continues = true) (s : List Byte) (hs : ∀ b ∈ s, b ≠ 0) :
-    ∀ (rest : List Byte) (pos : Nat) (acc : List Byte),
+theorem lookLoop_show (c : Cfg) (T : Tables c) (hc : c.look.continues = true) (s : List Nat) (hs : ∀ b ∈ s, b ≠ 0) :
+    ∀ (rest : List Nat) (pos : Nat) (acc : List Nat),
       lookLoop c.look (s.flatMap (showByte c.showEsc) ++ c.look.cls :: rest) pos acc
         = (acc ++ s, .ok (rest, pos + (s.flatMap (showByte c.showEsc)).length + 1)) := by
   induction s with
@@ -105,13 +105,213 @@ theorem lookLoop_show (c : Cfg) (T : Tables c) (hc : c.look.continues = true) (s
 
 /-- `String_Look` on what `String_Show` wrote, followed by anything: the value, the untouched rest, and `pos` advanced by exactly
     the number of characters written -/
-theorem lookString_show (c : Cfg) (T : Tables c) (hc : c.look.continues = true) (s : List Byte) (hs : ∀ b ∈ s, b ≠ 0)
-    (rest : List Byte) (pos : Nat) :
+theorem lookString_show (c : Cfg) (T : Tables c) (hc : c.look.continues = true) (s : List Nat) (hs : ∀ b ∈ s, b ≠ 0)
+    (rest : List Nat) (pos : Nat) :
     lookString c.look (showString c.showEsc c.showOpen c.showClose s ++ rest) pos
       = (s, .ok (rest, pos + (showString c.showEsc c.showOpen c.showClose s).length)) := by
   simp only [showString, T.opn, T.cls, List.cons_append, List.nil_append, List.append_assoc, lookString, if_true]
   rw [lookLoop_show c T hc s hs]
   simp only [List.nil_append, List.length_cons, List.length_append, List.length_nil]
   congr 3; omega
+
+end Cello.Text
+
+namespace Cello.Text
+
+/-! ## decimal integers: `scanLong` undoes `printInt` -/
+
+theorem natDigits_digits (n : Nat) : ∀ b ∈ natDigits n, 48 ≤ b ∧ b ≤ 57 := by
+  induction n using Nat.strongRecOn with
+  | _ n ih =>
+    rw [natDigits]; split
+    · intro b hb; simp at hb; omega
+    · intro b hb
+      simp only [List.mem_append, List.mem_singleton] at hb
+      rcases hb with hb | hb
+      · exact ih (n / 10) (by omega) b hb
+      · omega
+
+/-- a positive number's first digit is not `0` -/
+theorem natDigits_head (n : Nat) (hn : 0 < n) : ∃ d r, natDigits n = d :: r ∧ 49 ≤ d ∧ d ≤ 57 := by
+  induction n using Nat.strongRecOn with
+  | _ n ih =>
+    rw [natDigits]; split
+    · exact ⟨48 + n, [], rfl, by omega, by omega⟩
+    · obtain ⟨d, r, h, h1, h2⟩ := ih (n / 10) (by omega) (by omega)
+      exact ⟨d, r ++ [48 + n % 10], by rw [h]; rfl, h1, h2⟩
+
+/-- value of a digit list read left to right, starting from `acc` (what `readDigits 10` accumulates) -/
+def evalDigits (base : Nat) (acc : Nat) (ds : List Nat) : Nat := ds.foldl (fun a b => a * base + (b - 48)) acc
+
+theorem evalDigits_natDigits (n : Nat) : ∀ acc, evalDigits 10 acc (natDigits n) = acc * 10 ^ (natDigits n).length + n := by
+  induction n using Nat.strongRecOn with
+  | _ n ih =>
+    intro acc
+    rw [natDigits]; split
+    · simp [evalDigits]
+    · have := ih (n / 10) (by omega) acc
+      simp only [evalDigits] at this ⊢
+      rw [List.foldl_append, this]
+      simp only [List.foldl_cons, List.foldl_nil, List.length_append, List.length_cons, List.length_nil, Nat.pow_succ,
+        ← Nat.mul_assoc]
+      generalize acc * 10 ^ (natDigits (n / 10)).length = X
+      omega
+
+theorem digitVal_digit (base b : Nat) (h1 : 48 ≤ b) (h2 : b ≤ 57) (h3 : b - 48 < base) : digitVal base b = some (b - 48) := by
+  simp [digitVal, h1, h2, h3]
+
+theorem digitVal_nondigit (base b : Nat) (hb : base ≤ 10) (h : isDigit b = false) : digitVal base b = none := by
+  simp only [isDigit, Bool.and_eq_false_iff, decide_eq_false_iff_not, Nat.not_le] at h
+  unfold digitVal
+  by_cases h1 : 97 ≤ b ∧ b ≤ 102
+  · have : ¬(48 ≤ b ∧ b ≤ 57) := by omega
+    simp only [this, if_false, h1, if_true]
+    have : ¬ (b - 87 < base) := by omega
+    simp [this]
+  · by_cases h2 : 65 ≤ b ∧ b ≤ 70
+    · have : ¬(48 ≤ b ∧ b ≤ 57) := by omega
+      simp only [this, if_false, h1, h2, if_true]
+      have : ¬ (b - 55 < base) := by omega
+      simp [this]
+    · have : ¬(48 ≤ b ∧ b ≤ 57) := by omega
+      simp [this, h1, h2]
+
+/-- `readDigits` over a run of digits valid in the base, followed by text whose first byte is not a digit of the base -/
+theorem readDigits_run (base : Nat) (ds rest : List Nat)
+    (hds : ∀ b ∈ ds, digitVal base b = some (b - 48))
+    (hrest : ∀ b r, rest = b :: r → digitVal base b = none) :
+    ∀ acc k, readDigits base (ds ++ rest) acc k = (evalDigits base acc ds, k + ds.length, rest) := by
+  induction ds with
+  | nil =>
+    intro acc k
+    cases rest with
+    | nil => simp [readDigits, evalDigits]
+    | cons b r => simp [readDigits, evalDigits, hrest b r rfl]
+  | cons d ds ih =>
+    intro acc k
+    have hd := hds d List.mem_cons_self
+    have := ih (fun b hb => hds b (List.mem_cons_of_mem _ hb)) (acc * base + (d - 48)) (k + 1)
+    simp only [List.cons_append, readDigits, hd, this, evalDigits, List.foldl_cons, List.length_cons]
+    congr 2; omega
+
+theorem headIs_false_iff (p : Nat → Bool) (l : List Nat) : headIs p l = false ↔ ∀ b r, l = b :: r → p b = false := by
+  cases l with
+  | nil => simp [headIs]
+  | cons a t => simp [headIs]
+
+theorem skipSpace_nonspace (b : Nat) (r : List Nat) (h : isSpace b = false) : skipSpace (b :: r) = b :: r := by
+  simp [skipSpace, h]
+
+theorem autoBase_nonzero (d : Nat) (r : List Nat) (h : d ≠ 48) : autoBase (d :: r) = 10 := by
+  unfold autoBase
+  split <;> simp_all
+
+theorem autoBase_zero (rest : List Nat) (h : headIs (fun b => b == 120 || b == 88) rest = false) : autoBase (48 :: rest) = 8 := by
+  cases rest with
+  | nil => simp [autoBase]
+  | cons x r =>
+    simp only [headIs, Bool.or_eq_false_iff, beq_eq_false_iff_ne] at h
+    simp [autoBase, h.1, h.2]
+
+/-- digits of `m > 0`, then text that does not start with a digit: read in base 10 (whether chosen by `%ld` or by `%li`) -/
+theorem scanLong_pos (auto neg : Bool) (m : Nat) (hm : 0 < m) (rest : List Nat) (hr : headIs isDigit rest = false) :
+    scanLong auto ((if neg then [45] else []) ++ natDigits m ++ rest) = .ok (clampLong neg m, rest) := by
+  obtain ⟨d, r, hd, h1, h2⟩ := natDigits_head m hm
+  have hrun := readDigits_run 10 (natDigits m) rest
+    (fun b hb => by have := natDigits_digits m b hb; exact digitVal_digit 10 b this.1 this.2 (by omega))
+    (fun b r' hbr => digitVal_nondigit 10 b (by omega) ((headIs_false_iff _ _).1 hr b r' hbr)) 0 0
+  have hval := evalDigits_natDigits m 0
+  have hlen : (natDigits m).length ≠ 0 := by rw [hd]; simp
+  have hsp : isSpace d = false := by simp [isSpace]; omega
+  have hb10 : (if auto = true then autoBase (natDigits m ++ rest) else 10) = 10 := by
+    split
+    · rw [hd]; exact autoBase_nonzero d _ (by omega)
+    · rfl
+  cases neg with
+  | true =>
+    simp only [if_true, List.cons_append, List.nil_append, scanLong]
+    rw [skipSpace_nonspace 45 _ (by decide)]
+    simp only [true_or, if_true, hb10]
+    rw [hrun, hval]
+    simp [hlen]
+  | false =>
+    simp only [Bool.false_eq_true, if_false, List.nil_append, scanLong]
+    rw [hd] at hrun hb10 hval hlen ⊢
+    simp only [List.cons_append] at hrun hb10 ⊢
+    rw [skipSpace_nonspace d _ hsp]
+    have e1 : ¬ (d = 45 ∨ d = 43) := by omega
+    simp only [e1, if_false, hb10]
+    rw [hrun, hval]
+    have : ¬ d = 45 := by omega
+    simp [this]
+
+/-- the text `"0"` followed by text that starts neither with a digit nor (for `%li`) with `x`/`X` -/
+theorem scanLong_zero (auto : Bool) (rest : List Nat) (hr : headIs isDigit rest = false)
+    (hx : auto = true → headIs (fun b => b == 120 || b == 88) rest = false) :
+    scanLong auto (48 :: rest) = .ok (0, rest) := by
+  have hrun : ∀ base, 1 ≤ base → base ≤ 10 → readDigits base ([48] ++ rest) 0 0 = (evalDigits base 0 [48], 0 + 1, rest) := by
+    intro base hb1 hb2
+    exact readDigits_run base [48] rest (fun b hb => by simp at hb; subst hb; exact digitVal_digit base 48 (by omega) (by omega) (by omega))
+      (fun b r' hbr => digitVal_nondigit base b hb2 ((headIs_false_iff _ _).1 hr b r' hbr)) 0 0
+  simp only [scanLong]
+  rw [skipSpace_nonspace 48 _ (by decide)]
+  cases auto with
+  | true =>
+    have h8 := autoBase_zero rest (hx rfl)
+    simp only [show ¬((48:Nat) = 45 ∨ (48:Nat) = 43) by omega, if_false, if_true, h8]
+    have := hrun 8 (by omega) (by omega)
+    simp only [List.cons_append, List.nil_append] at this
+    rw [this]
+    simp [evalDigits, clampLong]
+  | false =>
+    simp only [show ¬((48:Nat) = 45 ∨ (48:Nat) = 43) by omega, if_false, Bool.false_eq_true]
+    have := hrun 10 (by omega) (by omega)
+    simp only [List.cons_append, List.nil_append] at this
+    rw [this]
+    simp [evalDigits, clampLong]
+
+theorem natDigits_zero : natDigits 0 = [48] := by rw [natDigits]; simp
+
+/-- evaluation rules for concrete numbers (`natDigits` is defined by well-founded recursion, which `decide` does not unfold) -/
+theorem natDigits_lt10 (n : Nat) (h : n < 10) : natDigits n = [48 + n] := by rw [natDigits]; simp [h]
+theorem natDigits_ge10 (n : Nat) (h : 10 ≤ n) : natDigits n = natDigits (n / 10) ++ [48 + n % 10] := by
+  rw [natDigits]; simp [Nat.not_lt.2 h]
+
+/-- **`%li` / `%ld` read back what `%li` printed**, for every int64 and every following text that does not continue the number -/
+theorem scanLong_printInt (auto : Bool) (n : Int) (hn : inInt64 n = true) (rest : List Nat)
+    (hs : intSafe auto n rest = true) :
+    scanLong auto (printInt n ++ rest) = .ok (n, rest) := by
+  simp only [inInt64, Bool.and_eq_true, decide_eq_true_eq] at hn
+  simp only [intSafe, Bool.and_eq_true, Bool.not_eq_true', Bool.and_eq_false_iff, beq_eq_false_iff_ne] at hs
+  obtain ⟨hdig, hx⟩ := hs
+  by_cases hneg : n < 0
+  · have hm : 0 < n.natAbs := by omega
+    have := scanLong_pos auto true n.natAbs hm rest hdig
+    simp only [if_true, List.cons_append, List.nil_append] at this
+    simp only [printInt, hneg, if_true, List.cons_append]
+    rw [this]
+    simp only [clampLong, if_true]
+    have : ¬ (n.natAbs ≥ 2 ^ 63) ∨ n = -(2^63 : Int) := by omega
+    rcases this with h | h
+    · simp only [h, if_false]; congr 2; omega
+    · subst h; simp
+  · by_cases hz : n = 0
+    · subst hz
+      simp only [printInt, Int.natAbs_zero, natDigits_zero, List.cons_append, List.nil_append]
+      simp
+      apply scanLong_zero auto rest hdig
+      intro ha
+      rcases hx with (h | h) | h
+      · simp [ha] at h
+      · simp at h
+      · exact h
+    · have hm : 0 < n.natAbs := by omega
+      have := scanLong_pos auto false n.natAbs hm rest hdig
+      simp only [Bool.false_eq_true, if_false, List.nil_append] at this
+      simp only [printInt, hneg, if_false]
+      rw [this]
+      simp only [clampLong, Bool.false_eq_true, if_false]
+      have h : ¬ (n.natAbs ≥ 2 ^ 63) := by omega
+      simp only [h, if_false]; congr 2; omega
 
 end Cello.Text
